@@ -685,7 +685,10 @@ def _bases():
     return st.one_of(st.just(np.zeros(6)), taas(), taas())
 
 
-def sixr_arguments(L, lengths, base_taa, ee_as):
+_RESIDUE = np.array([6.123233995736766e-17, -0.0, 3.061616997868383e-17, -1.8369701987210297e-16, 0.0, -6.1e-13])
+
+
+def sixr_arguments(L, lengths, base_taa, ee_as, residue=False):
     """The constructor arguments of the suite's 6R arm (tests/test_kinematics_arm.py::setUp), built the same way
     (transposed integer axes, transposed homes, float screw list filled column by column)."""
     L1, L2, L3, W = (float(x) for x in lengths)
@@ -695,6 +698,11 @@ def sixr_arguments(L, lengths, base_taa, ee_as):
     axes = np.array([[0, 0, 1], [0, 1, 0], [0, 1, 0], [1, 0, 0], [0, 1, 0], [1, 0, 0]]).conj().T
     homes = np.array([[0, 0, 0], [0, 0, L1], [L2, 0, L1], [L2 + L3, 0, L1], [L2 + L3 + W, 0, L1],
                       [L2 + L3 + 2 * W, 0, L1]]).conj().T
+    if residue:
+        # a joint table computed with trigonometry (0.5*cos(pi/2) = 3.06e-17, -0.0, ...): the zero y coordinates carry
+        # round-off residue; the arrays are the caller's all the same
+        homes = homes.astype(float)
+        homes[1, :] = _RESIDUE
     screws = np.zeros((6, 6))
     for i in range(0, 6):
         screws[0:6, i] = np.hstack((axes[0:3, i], np.cross(homes[0:3, i], axes[0:3, i])))
@@ -703,7 +711,7 @@ def sixr_arguments(L, lengths, base_taa, ee_as):
 
 def _make_arm(ops, L):
     from basic_robotics.kinematics import Arm
-    a = sixr_arguments(L, ops["L"], ops["base"], ops["ee_as"])
+    a = sixr_arguments(L, ops["L"], ops["base"], ops["ee_as"], bool(ops.get("residue")))
     if ops["with_axes"]:
         return a, (lambda: Arm(a["base"], a["screw_list"], a["ee_home"], a["joint_homes"], a["joint_axes"]))
     a.pop("joint_axes")
@@ -711,7 +719,7 @@ def _make_arm(ops, L):
 
 
 reg("robot_constructors", "Arm(6R)", {"L": _lengths(), "base": _bases(), "ee_as": st.sampled_from(["matrix", "tm"]),
-                                      "with_axes": st.booleans()}, _make_arm, mode="nomut")
+                                      "with_axes": st.booleans(), "residue": st.booleans()}, _make_arm, mode="nomut")
 
 
 def _sp_specs():
@@ -810,7 +818,8 @@ reg("robot_constructors", "SP(...) then spinCustom/move/IK", {"spec": st.deferre
     _make_sp_used, mode="nomut")
 reg("robot_constructors", "Arm(6R) then FK/move/FK", {"L": _lengths(), "base": _bases(),
                                                       "ee_as": st.sampled_from(["matrix", "tm"]),
-                                                      "with_axes": st.booleans(), "theta": G.vec(6, -3.0, 3.0),
+                                                      "with_axes": st.booleans(), "residue": st.booleans(),
+                                                      "theta": G.vec(6, -3.0, 3.0),
                                                       "pose": G.taas(maxnorm=3.0, maxang=2.0)},
     _make_arm_used, mode="nomut")
 
